@@ -17,6 +17,7 @@ from ..symexp import paths_of, is_component
 from ..taint import TaintDomain
 from . import register, A_NET, T_OPS, A_API
 from .flow_rules import base_terms_rule, ctx_pair_rule, _kwarg
+from .layout import layout_rule
 
 
 class NullDomain(TaintDomain):
@@ -327,7 +328,7 @@ def dist_terms_rule(ctx):
 
 register(
     "C05",
-    [res_rule, null_rule, dist_terms_rule, base_terms_rule, ctx_pair_rule],
+    [res_rule, null_rule, dist_terms_rule, base_terms_rule, ctx_pair_rule, layout_rule],
     "Interface-level necessary conditions for every density-returning object. RES: abstract interpretation of the public "
     "log_prob / sample / sample_and_log_prob / mean of every Distribution subclass (and the MADE mixture): every self-attribute "
     "read resolves, and no entry point returns a function object. NULL-1: values originating from parameters whose default is "
